@@ -11,6 +11,7 @@ func init() {
 		Sweep:  sweepMentions,
 		Filter: func(o *Obligation) bool { return o.Kind == "dep-recorded" || strings.Contains(o.Name, "dependency") || strings.Contains(o.Name, "[C04") }})
 	registerProp(&propSpec{ID: "C08", Patterns: []string{".", "./internal/coq", "./cmd/goose"}, Setup: translatorSetup})
+	registerProp(&propSpec{ID: "C17", Patterns: []string{".", "./internal/coq", "./cmd/goose"}, Setup: translatorSetup})
 	registerProp(&propSpec{ID: "C07", Patterns: []string{".", "./internal/coq", "./cmd/goose"}, Setup: translatorSetup, Sweep: sweepContracts("C07")})
 	registerProp(&propSpec{ID: "C09", Patterns: []string{"./machine/disk", "./machine/async_disk"}})
 	registerProp(&propSpec{ID: "C10", Patterns: []string{"./machine/disk"}, Filter: lockFilter})
